@@ -67,11 +67,32 @@ ABS = Ghost('Abs', [SeqStr], BoolS, base=lambda s: z3.BoolVal(False),
 GH = [FP, FPd, CC, CCd, DF, NEG, ABS]
 
 
+def sign_lemma(seq, k):
+    """L_sign (proved by induction in harness lemma.sign_flags): the sign flags of the format string are those of its {amount} token - while no {amount}
+    token has been read, neither flag is set.  Lets a body that ASSIGNS the flags at the {amount} token (which is read at most once: a second one is a
+    duplicate) be proved against the same folds as a body that only ever sets them."""
+    return z3.Implies(z3.Not(z3.IsMember(sv('amount'), FPd(seq, k))), z3.And(z3.Not(NEG(seq, k)), z3.Not(ABS(seq, k))))
+
+
 def unfold_all(seq, k):
     out = []
     for g in GH:
         out.extend(g.unfold(seq, k))
+    if not z3.is_int_value(k) or k.as_long() >= 0:
+        out.append(sign_lemma(seq, k))
     return out
+
+
+def h_sign_lemma(ctx):
+    s = ctx.fresh('parts', SeqStr)
+    k = ctx.fresh('k', IntS)
+    for g in (FPd, NEG, ABS):
+        for f in g.unfold(s, z3.IntVal(-1)) + g.unfold(s, k):
+            ctx.assume(f)
+    ctx.check('lemma.sign_flags.base', sign_lemma(s, z3.IntVal(0)), 'property')
+    ctx.assume(k >= 0)
+    ctx.assume(sign_lemma(s, k))
+    ctx.check('lemma.sign_flags.step', sign_lemma(s, k + 1), 'property')
 
 
 def map_parts(v, what):
@@ -120,7 +141,10 @@ def h_parse_format_string(ctx):
     sp.models['method:Obj:Match.group'] = Func(m_group)
     # the references of the description template: the names str.format will look up (stdlib's string.Formatter().parse inside the helper
     # _template_fields - trusted, bounded stand-in), or ValueError for a template str.format cannot read at all
+    seen_refs = {}
+
     def m_template_fields(I_, a, k, n):
+        seen_refs['called'] = True
         if I_.ctx.choose(2, 'template.malformed'):
             from pyvc.interp import PyRaise
             raise PyRaise('ValueError', (), '_template_fields')
@@ -160,8 +184,26 @@ def h_parse_format_string(ctx):
         'field_positions': fresh_map('field_positions'), 'custom_captures': fresh_map('custom_captures'),
         'date_format': lambda I_: I_.fresh('date_format', StrS), 'negate_amount': lambda I_: I_.fresh('negate_amount', BoolS),
         'abs_amount': lambda I_: I_.fresh('abs_amount', BoolS)}, unfold=lambda I_, env, k, it: unfold_all(it.cols[0], k))
-    if len(fors) > 1:
-        sp.loops[(Q, fr.loop_ordinals[id(fors[1])])] = LoopSpec(lambda I_, env, k, it: {}, {})
+    # the loop over the references of the description template: "a description template naming an uncaptured column is rejected" - every reference
+    # read so far is, as written (str.format looks names up case-sensitively), the name of a captured column; checked at one arbitrary position j
+    j = ctx.fresh('some_reference', IntS)
+
+    def inv_refs(I_, env, k, it):
+        caps = env['custom_captures'] if 'custom_captures' in env else next((v for v in env.values() if isinstance(v, SymMap)), None)
+        ca, cd = map_parts(caps, 'custom_captures')
+        return {'every_reference_read_so_far_names_a_captured_column': z3.Implies(z3.And(j >= 0, j < k), z3.IsMember(it.cols[0][j], cd))}
+    # ... wherever that loop is: in parse_format_string itself or in a helper of the module it was moved to
+    ref_loops = 0
+    for fname, fnode in fi.mod.functions.items():
+        ffi = fi if fnode is fi.node else find_function('tally.format_parser.' + fname)
+        ffr = Frame(ffi, {})
+        for nd in ast.walk(fnode):
+            if isinstance(nd, ast.For) and isinstance(nd.iter, ast.Call) and isinstance(nd.iter.func, ast.Name) and nd.iter.func.id == '_template_fields':
+                sp.loops[(ffi.qualname, ffr.loop_ordinals[id(nd)])] = LoopSpec(inv_refs, {}, kind='property')
+                ref_loops += 1
+    for nd in fors[1:]:
+        if (Q, fr.loop_ordinals[id(nd)]) not in sp.loops:
+            sp.loops[(Q, fr.loop_ordinals[id(nd)])] = LoopSpec(lambda I_, env, k, it: {}, {})
     captured = {}
     orig_cut = I.cut_loop
 
@@ -208,6 +250,8 @@ def h_parse_format_string(ctx):
             raise Unsupported('%s optional shape' % fld)
     if not has_template:
         ctx.check('C18.captures_without_template_rejected', z3.Or(has_desc, z3.Not(has_cc)), 'property')
+    elif seen_refs.get('called'):
+        ctx.check('C18.accepted_template_names_captured_columns_only', z3.Implies(z3.And(j >= 0, j < z3.Length(refs)), z3.IsMember(refs[j], CCd(s, n))), 'property')
     ctx.cover('parse_format_string.returns')
 
 
@@ -358,6 +402,7 @@ def _existing(*qualnames):
 
 def harnesses(tier):
     return [Harness('parse_format_string', h_parse_format_string, [Q]),
+            Harness('lemma.sign_flags', h_sign_lemma, []),
             Harness('_template_fields', h_template_fields, ['tally.format_parser._template_fields'] + _existing('tally.format_parser._replacement_fields')),
             Harness('lemma.position_reading', h_position_reading, [])]
 
